@@ -217,6 +217,8 @@ def run(ctx):
                 for pos, mode in (("top", "playground-run"), ("test", "sandboxed-test")) if ctx.quick else [(p, m) for p in POSITIONS for m in MODES]:
                     add(f"nesting: {nname} nested {d} deep, then {fname}", "", body, pos, mode, heavy=d >= 1000, group="nesting")
 
+    if os.environ.get("GV_COUNT_ONLY"):      # development aid: size of the enumeration without running it
+        raise Machinery(f"count only: {len(cases)} processes")
     def execute(i, c, cap, limit_kib):
         d = os.path.join(root, f"p{i}")
         os.makedirs(d, exist_ok=True)
